@@ -10,7 +10,7 @@ import KavaVerif.Model.Cdp
       accepted; gateLiq = ValidateLiquidation accepted; c2d = CalculateCollateralToDebtRatio mantissa;
       c2dBulk = calculateCollateralRatio mantissa)
   `c05.block` — tie of formulation (b) on the real keeper: a single CDP (c, cf, debt) at liquidation price
-     `price` and ratio `L`, one `LiquidateCdps` pass:   c cf debt dcf price L "=>" seized
+     `price` and ratio `L`, one `LiquidateCdps` pass (index scan + value-ratio re-check):   c cf debt dcf price L "=>" seized
   `c05.op` — same case lines as `c04.op` (see Driver/C04.lean); the model comparison is repeated and the
      C05 predicates are evaluated on the implementation's own pre/post observations.
 -/
@@ -72,8 +72,10 @@ def handleBlock : Handler
         else "ok"
       if pred != "ok" then pred else
       let key := sortKey (c2d c cf debt dcf)
-      let m := blockSelects key ⟨price⟩ ⟨L⟩
-      if m != seized then mismatch "blockSelects" (showBool m) (showBool seized) else "ok"
+      let E1 : Env := { P := { (default : Params) with colls := [{ (default : CollParam) with cf := cf }], debtCf := dcf }, accts := [] }
+      let c1 : Cdp := { owner := 0, ty := 0, coll := c, prin := debt, fees := 0, updated := 0, ifac := Dec.one }
+      let m := blockSelects key ⟨price⟩ ⟨L⟩ && !blockSkips E1 c1 ⟨price⟩ ⟨L⟩
+      if m != seized then mismatch "blockSeizes" (showBool m) (showBool seized) else "ok"
     | _, _, _, _, _, _, _ => badInput "parse"
   | _ => badInput "arity"
 
@@ -167,7 +169,17 @@ def preds (u : U) (kind : String) (args : List Int) (pre post : Obs) (tol : List
             let goneT := gone.filter (fun e => e.2.ty == ty)
             let cnt : Nat := if cp.checkCount ≤ 1 then 1 else cp.checkCount.toNat
             let survivorsBelow := post.idx.filter (fun e => e.1 == ty && e.2.1 < K)
-            if !survivorsBelow.isEmpty && goneT.length < cnt then some ("C05_block_complete", "index-entry-below-norm-survived")
+            -- a surviving entry in the scan range is legitimate iff the re-check skipped it (CR_liq ≥ L);
+            -- skipped entries still occupy one of the `count` slots
+            let underRatio := fun (e : Entry) =>
+              match post.cdps.lookup e.2.2 with
+              | some c => (match crOf u c c.coll (c.prin + c.fees) (some pl) with
+                           | some r => decide (r.m < cp.liqRatio.m)
+                           | none => true)
+              | none => true
+            let skippedSlots := (survivorsBelow.filter (fun e => !underRatio e)).length
+            if survivorsBelow.any underRatio && goneT.length + skippedSlots < cnt then
+              some ("C05_block_complete", "index-entry-below-norm-and-ratio-survived")
             else
               -- lowest first: every seized CDP sat (after its synchronisation) below every surviving entry
               let seizedKeys := goneT.map (fun e =>
@@ -181,7 +193,7 @@ def preds (u : U) (kind : String) (args : List Int) (pre post : Obs) (tol : List
                   (match crOf u e.2 e.2.coll (e.2.prin + e.2.fees) (some pl) with
                    | some r => beyondEpsBelow r.m cp.liqRatio.m pl.m
                    | none => false))
-                if missed && goneT.length < cnt then some ("C05_block_complete", "below-ratio-not-seized") else none
+                if missed && goneT.length + skippedSlots < cnt then some ("C05_block_complete", "below-ratio-not-seized") else none
           | _, _ => none)
     | _, _ => none
   if blockComplete.isSome then blockComplete else
@@ -199,12 +211,32 @@ def preds (u : U) (kind : String) (args : List Int) (pre post : Obs) (tol : List
   -- debt: only when no debt auction can start in this history (threshold out of reach)
   if E.P.debtThreshold < 100000000000000000000000000000 then none else
   let g := if kind == "begin" then gAfter else sPre
-  let seizedDebt := sumI (gone.map (fun e => syncedDebt g e.2))
   let entered := lookup3 post.bal 2 1 - lookup3 pre.bal 2 1
-  let ndeps := (pre.deps.filter (fun d => gone.any (fun e => e.1 == d.1))).length
-  if entered == seizedDebt then none
-  else if absI (entered - seizedDebt) ≤ ndeps + sumI tol then some ("C05_seize_whole", "debt-entering-auctions-off-by-rounding")
-  else some ("C05_seize_whole", "debt-entering-auctions")
+  -- expected: each seizure hands over min(its debt, debt coins then held by the cdp module); the module's
+  -- balance is replayed from observations only (pre balance, + the accrual minted per type = change of the
+  -- type's total principal + the debts seized in it, − what was handed over so far)
+  let expected : Option Int :=
+    if kind != "begin" then
+      some (sumI (gone.map (fun e => minI (syncedDebt g e.2) (lookup3 pre.bal 0 1))))
+    else
+      let step := fun (acc : Option (Int × Int)) (ty : Nat) =>
+        match acc, cpOf ty with
+        | some (avail, tot), some cp =>
+          let goneT := gone.filter (fun e => e.2.ty == ty)
+          let debts := sumI (goneT.map (fun e => syncedDebt g e.2))
+          let minted := post.tprin.getD ty 0 - pre.tprin.getD ty 0 + debts
+          if minted < 0 || (post.tprin.getD ty 0 == 0 && !goneT.isEmpty) then none   -- total-principal clamp: not replayable
+          else
+            let order := (goneT.map (fun e => ((ty, sortKey (c2d e.2.coll cp.cf (syncedDebt g e.2) E.P.debtCf), e.1), syncedDebt g e.2))).foldl
+              (fun (l : List (Entry × Int)) x => (l.filter (fun y => eLt y.1 x.1)) ++ [x] ++ (l.filter (fun y => !eLt y.1 x.1))) []
+            some (order.foldl (fun (p : Int × Int) x => (p.1 - minI x.2 p.1, p.2 + minI x.2 p.1)) (avail + minted, tot))
+        | _, _ => none
+      ((List.range E.P.colls.length).foldl step (some (lookup3 pre.bal 0 1, 0))).map (·.2)
+  match expected with
+  | none => none
+  | some ex =>
+    if entered == ex then none
+    else some ("C05_seize_whole", s!"debt-entering-auctions entered={entered} expected={ex}")
 
 def handleOp : Handler
   | [kind, params, pre, args, _, result, post, tol] =>
